@@ -225,3 +225,39 @@ Fixpoint env_from (A : assume) (h0 : option upd) (first : bool) (st : state) (tr
   end.
 Definition env_ok (A : assume) (h0 : option upd) (tr : list input) : bool :=
   env_from A h0 true (init h0) tr.
+
+(* ---------- the geth adapter below the L1StateProvider interface ----------
+   l1/geth_l1_state_provider.go: stateUpdateFromGethContract, forwardStateUpdates,
+   FilterStateUpdate. A geth-level LogStateUpdate: Raw.BlockNumber, BlockNumber, (BlockHash,
+   GlobalRoot) as one small number, Raw.Removed. *)
+Record glog := mkGlog { g_l1 : N; g_l2 : N; g_id : N; g_removed : bool }.
+
+Definition upd_of (g : glog) : upd := mkUpd (g_l1 g) (g_l2 g) (g_id g).
+
+(* stateUpdateFromGethContract followed by the client's receive: the Removed flag is copied *)
+Definition decode (g : glog) : input := if g_removed g then Rem (upd_of g) else Upd (upd_of g).
+
+(* What reaches the client. [SLog g]: geth delivers a log on the subscription channel;
+   [SErr]: the geth subscription fails (forwardStateUpdates returns the error, Err() fires, the
+   client resubscribes and a new forwarding loop continues with the rest of the stream);
+   [SPoll i]: a ticker poll / the start-up catch-up (calls that do not go through the loop).
+   Unsubscribe / context cancel ends the stream (only at shutdown): every theorem is about an
+   arbitrary finite stream, hence about every prefix.
+   [fw] is the per-event behaviour of the loop body. *)
+Inductive sev := SLog (g : glog) | SErr | SPoll (i : input).
+
+Fixpoint sys_trace (fw : glog -> list input) (s : list sev) : list input :=
+  match s with
+  | [] => []
+  | SLog g :: r => fw g ++ sys_trace fw r
+  | SErr :: r => SubErr :: sys_trace fw r
+  | SPoll i :: r => i :: sys_trace fw r
+  end.
+
+(* the loop body of forwardStateUpdates: every event is decoded and sent on, one for one *)
+Definition fw_real (g : glog) : list input := [decode g].
+(* a forwarder that swallows removal notices (counter-example only) *)
+Definition fw_drop_removed (g : glog) : list input := if g_removed g then [] else [decode g].
+
+(* FilterStateUpdate: the logs of the range, decoded in order *)
+Definition canon_of (gl : list glog) : list upd := map upd_of gl.
